@@ -30,7 +30,9 @@ func init() {
 	rsq := func(in *exec.Instance, tier string) {
 		in.Redirect = map[string]string{rsEncode: "utils:VPRSEncodeSummary", qrPenalty: "qr:vpPenaltyFixed"}
 	}
-	rs := func(in *exec.Instance, tier string) { in.Redirect = map[string]string{rsEncode: "utils:VPRSEncodeSummary"} }
+	rs := func(in *exec.Instance, tier string) {
+		in.Redirect = map[string]string{rsEncode: "utils:VPRSEncodeSummary"}
+	}
 	reg(&Oblig{ID: "PURE-qr", Pkg: "qr", Func: "VP_QR_pure", Props: []string{"C15", "C16"}, Desc: "QR Encode on symbolic content, repeated around an unrelated call: same error behaviour; no write to package-level state outside the generator cache lock; no goroutine left behind on any path (IterateBytes, iterateModules x2, stringToAlphaIdx incl. its error paths)",
 		Stubs: []string{pureStub, "Reed-Solomon summary and penalty stub as in QR-E; goroutines run as coroutines (Kahn producers); a goroutine still parked when the entry point has returned is a violation"},
 		Bound: "n <= 1 symbolic byte x 4 levels (quick), n <= 2 (thorough)",
@@ -52,11 +54,15 @@ func init() {
 		}, Tune: rsq})
 	reg(&Oblig{ID: "REPEAT-qr", Pkg: "qr", Func: "VP_QR_repeat", Props: []string{"C15", "C16"}, Desc: "QR Encode on concrete sample contents with the real penalty function and the real shared Reed-Solomon cache: identical pixels when repeated after other calls; cache writes only under the mutex; mutex released; no goroutine left",
 		Stubs: []string{pureStub, "concrete inputs (no solver involved): this obligation exercises the real calcPenalty and getPolynomial paths that the symbolic obligations cut away"},
-		Bound:   "5 sample contents x 4 levels",
-		Configs: func(string, int64) []map[string]int { return cross(one("which", 0, 1, 2, 3, 4), one("level", 0, 1, 2, 3)) }})
+		Bound: "5 sample contents x 4 levels",
+		Configs: func(string, int64) []map[string]int {
+			return cross(one("which", 0, 1, 2, 3, 4), one("level", 0, 1, 2, 3))
+		}})
 	reg(&Oblig{ID: "RSLOCK-qr", Pkg: "qr", Func: "VP_QR_rslock", Props: []string{"C15", "C16", "C17"}, Desc: "package-level QR Reed-Solomon encoder: results equal a fresh encoder's whatever degree was requested before; the cache is only written while its mutex is held; the mutex is released on return",
 		Stubs: []string{pureStub, "sync.Mutex modelled as an owner flag; concrete data (the real getPolynomial / Multiply run)"}, Bound: "request pairs (d1, d2) over {7,10,13,17,30} x {7,10,22,28}",
-		Configs: func(string, int64) []map[string]int { return cross(one("d1", 7, 10, 13, 17, 30), one("d2", 7, 10, 22, 28)) }})
+		Configs: func(string, int64) []map[string]int {
+			return cross(one("d1", 7, 10, 13, 17, 30), one("d2", 7, 10, 22, 28))
+		}})
 	reg(&Oblig{ID: "RSLOCK-dm", Pkg: "datamatrix", Func: "VP_DM_rslock", Props: []string{"C15", "C16", "C17"}, Desc: "package-level DataMatrix Reed-Solomon encoder: as RSLOCK-qr",
 		Stubs: []string{pureStub, "sync.Mutex modelled as an owner flag; concrete data"}, Bound: "size pairs over {0,3,8,12} x {1,5,9,14}",
 		Configs: func(string, int64) []map[string]int { return cross(one("s1", 0, 3, 8, 12), one("s2", 1, 5, 9, 14)) }})
